@@ -32,11 +32,11 @@ CtorCalls ==
          : m \in {0, 1}}
          : <<w, h>> \in Dim(MaxW - 1) \X Dim(MaxH - 1)}
 
-Forms == {"rg", "ri", "to", "toi", "from", "full"}
+Forms == {"rg", "ri", "to", "toi", "from", "full", "ex"}
 \* arguments a..b for one axis of extent dim: all in-range pairs plus a few
 \* beyond the border
 AxisArgs(form, dim) ==
-  CASE form = "rg"   -> {<<a, b>> \in (0..(dim + 1)) \X (0..(dim + 1)) : a <= b + 1}
+  CASE form \in {"rg", "ex"} -> {<<a, b>> \in (0..(dim + 1)) \X (0..(dim + 1)) : a <= b + 1}
     [] form = "ri"   -> {<<a, b>> \in (0..(dim + 1)) \X (0..dim) : a <= b + 1}
     [] form = "to"   -> {<<0, b>> : b \in 0..(dim + 1)}
     [] form = "toi"  -> {<<0, b>> : b \in 0..dim}
